@@ -346,16 +346,36 @@ Definition ostr_eqb (a b : option string) : bool :=
 Definition shape (o : fsop) : fsop :=
   match o with Append p b => Append p (dec (N.of_nat (String.length b))) | _ => o end.
 
-(* one faulted re-run of an update: the fault, the shape of the observed trace, and the observed
-   text of every file of interest afterwards *)
-Definition fcase := (fault * (list fsop * list (path * option string)))%type.
+(* what was observed in a file after a faulted re-run: absent, the text before the update, the complete
+   new text, some other text, or (temporary files) only its length *)
+Inductive otag := OAbs | OOld | ONew | OStr (s : string) | OLen (n : nat).
+Fixpoint new_of (xs : list txn) (p : path) : option string :=
+  match xs with
+  | [] => None
+  | x :: r => match new_of r p with
+              | Some c => Some c
+              | None => if String.eqb (dst x) p then Some (concat_str (chunks x true)) else None
+              end
+  end.
+Definition otag_ok (xs : list txn) (s0 s1 : fs) (p : path) (t : otag) : bool :=
+  match t with
+  | OAbs => match read p s1 with None => true | _ => false end
+  | OOld => match read p s1 with Some c => ostr_eqb (Some c) (read p s0) | None => false end
+  | ONew => match read p s1 with Some c => ostr_eqb (Some c) (new_of xs p) | None => false end
+  | OStr c => ostr_eqb (read p s1) (Some c)
+  | OLen n => match read p s1 with Some c => Nat.eqb (String.length c) n | None => false end
+  end.
+
+(* one faulted re-run of an update: the fault, the shape of the observed trace, and what was observed
+   in every file of interest afterwards *)
+Definition fcase := (fault * (list fsop * list (path * otag)))%type.
 (* one update: its transactions, the files before, the observed fault-free trace, the faulted re-runs *)
 Definition ucase := (list txn * (fs * (list fsop * list fcase)))%type.
 
 Definition check_fault (xs : list txn) (s0 : fs) (c : fcase) : bool :=
   let ops := exec xs true (fst c) in
   list_eqb fsop_eqb (map shape ops) (fst (snd c)) &&
-  forallb (fun pc => ostr_eqb (read (fst pc) (run ops s0)) (snd pc)) (snd (snd c)).
+  forallb (fun pc => otag_ok xs s0 (run ops s0) (fst pc) (snd pc)) (snd (snd c)).
 
 Definition check_update (u : ucase) : bool :=
   let xs := fst u in let s0 := fst (snd u) in
